@@ -32,23 +32,6 @@ def class_table(chk, dom):
                 chk.fail("R12.3", f"{cls.module.name}:{cls.name}.{meth}", f"{cls.name}.{meth} resolves to an abstract method")
             else:
                 chk.ok("R12.3", key=(cls.name, meth))
-        # without_extras body: `return self.exclude("extra")` or `return self`
-        f, owner = cls.lookup("without_extras")
-        if isinstance(f, Func):
-            rets = [n for n in ast.walk(f.node) if isinstance(n, ast.Return)]
-            okb = False
-            for r in rets:
-                v = r.value
-                if isinstance(v, ast.Name) and v.id == "self" and cls in (dom.Any, dom.Empty):
-                    okb = True
-                if (isinstance(v, ast.Call) and isinstance(v.func, ast.Attribute) and v.func.attr == "exclude"
-                        and len(v.args) == 1 and isinstance(v.args[0], ast.Constant) and v.args[0].value == "extra"):
-                    okb = True
-            chk.instance("R12.3")
-            if not okb:
-                chk.fail("R12.3", f"{owner.module.name}:{owner.name}.without_extras", "without_extras is not exclude('extra')")
-            else:
-                chk.ok("R12.3", key=(cls.name, "without_extras-body"))
         for neg in ("__invert__", "__neg__"):
             chk.instance("R12.4")
             if cls.lookup(neg)[0] is not MISSING:
@@ -65,7 +48,7 @@ def run(chk):
         "denotation bitmasks over the environment grid. Plus class-table facts (exhaustiveness, monotone language).")
     chk.rule("R12.1", "only(): no foreign variable, implied by m, equal when m mentions only those names")
     chk.rule("R12.2", "exclude()/without_extras(): variable gone, meaning unchanged when not mentioned")
-    chk.rule("R12.3", "every marker class resolves the three methods; without_extras == exclude('extra')", min_instances=21)
+    chk.rule("R12.3", "every marker class resolves the three methods; without_extras() == exclude('extra') on the universe", min_instances=21)
     chk.rule("R12.4", "no negation in the marker language", min_instances=14)
     dom = mx.domain(str(chk.src))
     class_table(chk, dom)
